@@ -409,6 +409,9 @@ def byteRef (idx : Nat) (args : List Arg) : Comp :=
   else if idx = 3 then .op "bytec_3" (commentArgs args)
   else .op "bytec" (.num idx :: commentArgs args)
 
+/-- `MAX_BLOCK_SIZE`: `intc i` / `bytec i` address a block entry with a one-byte immediate -/
+def maxBlockSize : Nat := 256
+
 /-- everything the second loop looks at -/
 structure Plan where
   intBlock : List IVal
@@ -421,19 +424,21 @@ def mkPlan (sites : List Site) : Plan :=
   let byteFreqs := freqs (byteVals sites)
   let sortedInts := sortDesc intFreqs
   let sortedB := sortDesc byteFreqs
-  { intBlock := intBlockFrom 0 sortedInts
+  { intBlock := (intBlockFrom 0 sortedInts).take maxBlockSize          -- `[...][:MAX_BLOCK_SIZE]`
     byteFreqs := byteFreqs
     sortedBytes := sortedB.map (·.1)
-    byteBlock := (sortedB.filter (fun p => p.2 > 1)).map (·.1) }
+    byteBlock := ((sortedB.filter (fun p => p.2 > 1)).map (·.1)).take maxBlockSize }
 
 /-- the body of the second loop for one component -/
 def rewriteOne (p : Plan) (c : Comp) (s : Site) : Comp :=
   match c, s with
   | .op _ args, .int v =>
-    if v ∈ p.intBlock then intRef (idxOf v p.intBlock) args
+    if v ∈ p.intBlock then intRef (idxOf v p.intBlock) args      -- `intValue not in intBlock` (the truncated block)
     else .op "pushint" (v.arg :: commentArgs args)
   | .op _ args, .byt v =>
-    if getCount p.byteFreqs v = 1 then .op "pushbytes" (.str v.encode :: commentArgs args)
+    -- `byteFreqs[byteValue] == 1 or sortedBytes.index(byteValue) >= MAX_BLOCK_SIZE`
+    if getCount p.byteFreqs v = 1 ∨ idxOf v p.sortedBytes ≥ maxBlockSize then
+      .op "pushbytes" (.str v.encode :: commentArgs args)
     else byteRef (idxOf v p.sortedBytes) args       -- index in `sortedBytes`, not in `byteBlock`
   | c, _ => c
 
